@@ -142,7 +142,9 @@ theorem handleFrame_quiet_tables (s : Sess) (f : Frame) (hq : quietCmd f.cmd = t
     · simp
     · intro k hk; simp [tblGet_remove, hk]
   · -- updatePaddingScheme
-    simp
+    split
+    · split <;> simp
+    · simp
   · -- synAck
     split
     · split
@@ -181,6 +183,10 @@ theorem handleFrame_quiet_objs (s : Sess) (f : Frame) (hq : quietCmd f.cmd = tru
     · rfl
   · -- fin
     simp [dropRecvEntry_getElem? s f.sid h h1]
+  · -- updatePaddingScheme
+    split
+    · split <;> rfl
+    · rfl
   · -- synAck
     split
     · split
@@ -380,7 +386,12 @@ theorem handleFrame_quiet_WF (s : Sess) (f : Frame) (hq : quietCmd f.cmd = true)
       by_cases hkf : k = f.sid
       · simp [hkf] at hk
       · simp only [hkf, if_false] at hk; left; exact hk
-  · exact hwf
+  · -- updatePaddingScheme
+    split
+    · split
+      · exact ⟨hwf.recv_ok, hwf.streams_ok, hwf.rd_ok⟩
+      · exact hwf
+    · exact hwf
   · -- synAck
     split
     · split
@@ -495,6 +506,10 @@ theorem handleFrame_nextSid (s : Sess) (f : Frame) : (s.handleFrame f).1.nextSid
     · exact handleSettings_nextSid _ _
     · rfl
   · exact handleAlert_nextSid _ _
+  · -- updatePaddingScheme
+    split
+    · split <;> rfl
+    · rfl
   · -- synAck
     split
     · split
